@@ -67,7 +67,12 @@ theorem compile_inOrd (d0 : List Nat) : (v : View) → ∀ (esc : Bool) (pos : P
     split
     · simp [inOrdOps, inOrdOp]
     · split
-      · simp [inOrdOps, inOrdOp, inOrdOps_append, compile_inOrd d0 c (escKids tag) .firstChild]
+      · have hk : inOrdOps (kidsOps tag (compile false d0 (escKids tag) c .firstChild).1) = true := by
+          unfold kidsOps
+          split
+          · simp [inOrdOps, inOrdOp]
+          · exact compile_inOrd d0 c (escKids tag) .firstChild
+        simp [inOrdOps, inOrdOp, inOrdOps_append, hk]
       · simp [inOrdOps, inOrdOp]
   | .tuple vs, esc, pos => by simpa [compile] using compileL_inOrd d0 vs esc pos
   | .osome v, esc, pos => by simpa [compile] using compile_inOrd d0 v esc pos
@@ -103,7 +108,12 @@ theorem compile_oooWf (d0 : List Nat) : (v : View) → ∀ (esc : Bool) (pos : P
     split
     · exact OooWf.nil
     · split
-      · exact (compile_oooWf d0 c (escKids tag) .firstChild).append (OooWf.sync _ OooWf.nil)
+      · have hk : OooWf (kidsOps tag (compile true d0 (escKids tag) c .firstChild).1) := by
+          unfold kidsOps
+          split
+          · exact OooWf.sync _ OooWf.nil
+          · exact compile_oooWf d0 c (escKids tag) .firstChild
+        exact hk.append (OooWf.sync _ OooWf.nil)
       · exact OooWf.sync _ OooWf.nil
   | .tuple vs, esc, pos => by simpa [compile] using compileL_oooWf d0 vs esc pos
   | .osome v, esc, pos => by simpa [compile] using compile_oooWf d0 v esc pos
@@ -157,6 +167,33 @@ theorem compileL_wf (ooo : Bool) (d0 : List Nat) (vs : List View) (esc : Bool) (
     ooo = true → OooWf (compileL ooo d0 esc vs pos).1 := by
   intro h; subst h; exact compileL_oooWf d0 vs esc pos
 
+theorem kidsOps_wf (ooo : Bool) (tag : String) {ops : List Op} (h : ooo = true → OooWf ops) :
+    ooo = true → OooWf (kidsOps tag ops) := by
+  intro ho
+  unfold kidsOps
+  split
+  · exact OooWf.sync _ OooWf.nil
+  · exact h ho
+
+/-- a program of `push_sync`s only: its document is what it leaves in the buffer -/
+theorem docOf_allSync (ooo : Bool) : ∀ (ops : List Op), ops.all isSyncOp = true → docOf ooo ops = syncCat ops
+  | [], _ => docOf_nil ooo
+  | o :: os, h => by
+    simp only [List.all_cons, Bool.and_eq_true] at h
+    cases o <;> simp only [isSyncOp] at h <;> try (exact absurd h.1 (by decide))
+    rw [docOf_sync_cons, docOf_allSync ooo os h.2, syncCat]
+
+/-- the children's part of an element, when the guesses are right and a `<textarea>` has no suspended child -/
+theorem docOf_kidsOps (ooo : Bool) (tag : String) (ops : List Op) (body : Str) (hd : docOf ooo ops = body)
+    (hs : (tag.toList != Html.tTextarea || ops.all isSyncOp) = true) :
+    docOf ooo (kidsOps tag ops) = kidsBody tag body := by
+  unfold kidsOps kidsBody
+  by_cases ht : tag.toList = Html.tTextarea
+  · have ha : ops.all isSyncOp = true := by simpa [ht] using hs
+    simp only [ht, ha, decide_true, Bool.and_self, if_true]
+    rw [docOf_sync, ← docOf_allSync ooo ops ha, hd]
+  · simp [ht, hd]
+
 mutual
 /-- **compile_doc.** Every guess right ⇒ the program's resolved document is the synchronous HTML and the position
     it leaves is the synchronous one -/
@@ -172,15 +209,17 @@ theorem compile_doc (ooo : Bool) (d0 : List Nat) : (v : View) → ∀ (esc : Boo
     · simp [hv, docOf_nil]
     · simp only [hv, Bool.false_eq_true, if_false]
       by_cases he : viewExists c = true
-      · have hc : Agree ooo d0 (escKids tag) c .firstChild = true := by
-          simp only [Agree, Bool.or_eq_true, Bool.not_eq_true'] at h
+      · have hc : Agree ooo d0 (escKids tag) c .firstChild = true ∧
+            (tag.toList != Html.tTextarea || (compile ooo d0 (escKids tag) c .firstChild).1.all isSyncOp) = true := by
+          simp only [Agree, Bool.or_eq_true, Bool.not_eq_true', Bool.and_eq_true] at h
           rcases h with (h | h) | h
           · exact absurd h hv
           · rw [he] at h; exact absurd h (by decide)
-          · exact h
-        have ih := (compile_doc ooo d0 c (escKids tag) .firstChild hc).1
+          · exact ⟨h.1, by simpa using h.2⟩
+        have ih := (compile_doc ooo d0 c (escKids tag) .firstChild hc.1).1
         simp only [he, if_true]
-        rw [docOf_append ooo (compile_wf ooo d0 c _ _), ih, docOf_sync]
+        rw [docOf_append ooo (kidsOps_wf ooo tag (compile_wf ooo d0 c _ _)),
+          docOf_kidsOps ooo tag _ _ ih hc.2, docOf_sync]
         simp
       · simp only [he, Bool.false_eq_true, if_false, List.nil_append, docOf_sync]
         simp
@@ -245,6 +284,54 @@ theorem compileL_doc (ooo : Bool) (d0 : List Nat) : (vs : List View) → ∀ (es
     exact ⟨rfl, rfl⟩
 end
 
+theorem all_append_sync (a b : List Op) : (a ++ b).all isSyncOp = (a.all isSyncOp && b.all isSyncOp) := by
+  simp [List.all_append]
+
+mutual
+/-- every future ready at render time: the view only calls `push_sync` -/
+theorem compile_allSync (ooo : Bool) (d0 : List Nat) : (v : View) → ∀ (esc : Bool) (pos : Position),
+    (∀ f ∈ fidsOf v, d0.contains f = true) → (compile ooo d0 esc v pos).1.all isSyncOp = true
+  | .text _, _, _, _ => by simp [compile, isSyncOp]
+  | .unit, _, _, _ => by simp [compile, isSyncOp]
+  | .onone, _, _, _ => by simp [compile, isSyncOp]
+  | .elem tag as c, esc, pos, h => by
+    have hc := compile_allSync ooo d0 c (escKids tag) .firstChild (by simpa [fidsOf] using h)
+    have hk : (kidsOps tag (compile ooo d0 (escKids tag) c .firstChild).1).all isSyncOp = true := by
+      unfold kidsOps
+      split
+      · simp [isSyncOp]
+      · exact hc
+    simp only [compile]
+    split
+    · simp [isSyncOp]
+    · split
+      · simp [isSyncOp, List.all_append, hk]
+      · simp [isSyncOp]
+  | .tuple vs, esc, pos, h => by simpa [compile] using compileL_allSync ooo d0 vs esc pos (by simpa [fidsOf] using h)
+  | .osome v, esc, pos, h => by simpa [compile] using compile_allSync ooo d0 v esc pos (by simpa [fidsOf] using h)
+  | .either _ _ v, esc, pos, h => by simpa [compile] using compile_allSync ooo d0 v esc pos (by simpa [fidsOf] using h)
+  | .vec vs, esc, pos, h => by
+    have := compileL_allSync ooo d0 vs esc pos (by simpa [fidsOf] using h)
+    simp only [compile, List.all_append, this, Bool.true_and]
+    split <;> simp [isSyncOp]
+  | .any ty v, esc, pos, h => by
+    have hv : ∀ f ∈ fidsOf v, d0.contains f = true := fun f hf => h f (by simp [fidsOf, hf])
+    simp only [compile]
+    split
+    · exact compile_allSync ooo d0 v esc pos hv
+    · rename_i f hf
+      have : d0.contains f = true := h f (by simp [fidsOf, hf])
+      simp only [this, if_true]
+      exact compile_allSync ooo d0 v esc pos hv
+theorem compileL_allSync (ooo : Bool) (d0 : List Nat) : (vs : List View) → ∀ (esc : Bool) (pos : Position),
+    (∀ f ∈ fidsOfL vs, d0.contains f = true) → (compileL ooo d0 esc vs pos).1.all isSyncOp = true
+  | [], _, _, _ => by simp [compileL]
+  | v :: vs, esc, pos, h => by
+    simp only [compileL, List.all_append, Bool.and_eq_true]
+    exact ⟨compile_allSync ooo d0 v esc pos (fun f hf => h f (by simp [fidsOfL, hf])),
+           compileL_allSync ooo d0 vs esc _ (fun f hf => h f (by simp [fidsOfL, hf]))⟩
+end
+
 mutual
 /-- every future ready at render time: no guess is made -/
 theorem agree_of_ready (ooo : Bool) (d0 : List Nat) : (v : View) → ∀ (esc : Bool) (pos : Position),
@@ -253,8 +340,9 @@ theorem agree_of_ready (ooo : Bool) (d0 : List Nat) : (v : View) → ∀ (esc : 
   | .unit, _, _, _ => rfl
   | .onone, _, _, _ => rfl
   | .elem tag as c, esc, pos, h => by
-    simp only [Agree, Bool.or_eq_true]
-    exact Or.inr (agree_of_ready ooo d0 c _ _ (by simpa [fidsOf] using h))
+    simp only [Agree, Bool.or_eq_true, Bool.and_eq_true]
+    exact Or.inr ⟨agree_of_ready ooo d0 c _ _ (by simpa [fidsOf] using h),
+      Or.inr (compile_allSync ooo d0 c _ _ (by simpa [fidsOf] using h))⟩
   | .tuple vs, esc, pos, h => by simpa [Agree] using agreeL_of_ready ooo d0 vs esc pos (by simpa [fidsOf] using h)
   | .osome v, esc, pos, h => by simpa [Agree] using agree_of_ready ooo d0 v esc pos (by simpa [fidsOf] using h)
   | .either _ _ v, esc, pos, h => by simpa [Agree] using agree_of_ready ooo d0 v esc pos (by simpa [fidsOf] using h)
